@@ -1517,7 +1517,8 @@ func walkPathsP(start Loc, terminal func(ssa.Instruction) bool, edgeOK func(b *s
 					fv, _ := pc.res(x.Call.Value, fr)
 					if _, isLit := fv.(*ssa.MakeClosure); isLit || fv != x.Call.Value {
 						// (captured variables of a function literal stay symbolic: they are not resolved through frames)
-						if f := funcOfValue(fv); f != nil && f.Blocks != nil && theWorld.inModule(f) && !theWorld.TestSupport[f] {
+						// only function literals and helpers: a function the rules know by name is judged by its own rules
+						if f := funcOfValue(fv); f != nil && f.Blocks != nil && theWorld.inModule(f) && !theWorld.TestSupport[f] && (f.Parent() != nil || inlineOK(f)) {
 							callee, viaValue = f, true
 						}
 					}
